@@ -2,13 +2,13 @@ package lzwork
 
 import (
 	"bufio"
-	"sync"
 	"bytes"
 	"errors"
 	"fmt"
 	"io"
 	"math/rand"
 	"runtime/debug"
+	"sync"
 	"time"
 
 	"github.com/la5nta/wl2k-go/lzhuf"
